@@ -1,5 +1,6 @@
 import PyaModel.Spec.SigAssignSpec
 import PyaModel.Spec.OverrideSpec
+import PyaModel.Core.Obtain
 import PyaModel.Generated.SigTypes
 /-! Line protocol driver for C07.
 in : `P <sig> | <sig>`                 expected | actual  (`Q …` = same, but search counterexamples
@@ -14,6 +15,9 @@ out: P: `acc=<0|1> cex=<-|npos;k1,k2> tcex=<-|npos;k1,k2> D=<-|class,class>`
         tcex = first call shape bound by both with an argument landing on a non-supertype annotation
         D    = exception classes of the pair
      O: `acc=<0|1>`
+     `G <how> <depth> <sig> | <sig>`   expected | the def header of a callable obtained `how` (plain nested lambda bound
+                                        funcViaClass staticInst staticCls classInst classCls callInst ctor prop)
+     out: as for `Q`, computed for (expected, effectiveSig how header), followed by ` eff=<sig>` (the effective header)
      `H <class> ; <class> ; …`         a class hierarchy and ONE attribute name; class i (0-based, bases have smaller
                                         indices) = `<bases: - | i,j> @ <member>`, member = `-` (not bound in the body) |
                                         `m <sig>` (method, sig without self) | `s <sig>` (staticmethod) |
@@ -125,6 +129,46 @@ def handleH (rest : String) : String :=
           s!"{i}|{showNats mro}|{if ok then 1 else 0}|{sh (bad.map toString)}|{sh ds}"
     " ".intercalate toks
 
+def parseHow : String → Option How
+  | "plain" => some .plain | "nested" => some .nested | "lambda" => some .lambda | "bound" => some .bound
+  | "funcViaClass" => some .funcViaClass | "staticInst" => some .staticInst | "staticCls" => some .staticCls
+  | "classInst" => some .classInst | "classCls" => some .classCls | "callInst" => some .callInst
+  | "ctor" => some .ctor | "prop" => some .prop | _ => none
+
+def showKind : Kind → String
+  | .posOnly => "po" | .posOrKw => "pk" | .varPos => "vp" | .kwOnly => "ko" | .varKw => "vk"
+
+def showTag : Tag → String
+  | .any => "any" | .object => "object" | .int => "int" | .bool => "bool" | .float => "float" | .str => "str"
+
+def showSig (s : TDefSig Tag) : String :=
+  " ".intercalate (s.tparams.map fun p => s!"{p.name}:{showKind p.kind}:{if p.dflt then 1 else 0}:{showTag p.ann}")
+    ++ " -> " ++ showTag s.ret
+
+def pairReport (e : TSig Tag) (E A : TDefSig Tag) (force : Bool) : String :=
+  let acc := sigCanAssign liveTyRel e A.tsig
+  let names := dedup ((e.params ++ A.tparams).map (·.name) ++ ["z"])
+  let d := match d07Classes E A with | [] => "-" | cs => ",".intercalate cs
+  if acc || force then
+    let cex := behCex 3 3 names E A
+    let tcex := typedCex tagIncl 3 3 names E A
+    s!"acc={if acc then 1 else 0} cex={showCall cex} tcex={showCall tcex} D={d}"
+  else s!"acc=0 cex=NA tcex=NA D={d}"
+
+def handleG (rest : String) : String :=
+  match rest.splitOn "|" with
+  | [l, a] =>
+    match words l with
+    | hw :: dp :: etoks =>
+      match parseHow hw, dp.toNat?, parseSig (" ".intercalate etoks), parseSig a with
+      | some how, some depth, some e, some a =>
+        let E := toTDefSig e
+        let eff := effectiveSig Tag.any ⟨how, depth⟩ (toTDefSig a)
+        s!"{pairReport E.tsig E eff true} eff={showSig eff}"
+      | _, _, _, _ => "bad-op"
+    | _ => "bad-op"
+  | _ => "bad-op"
+
 def handle (line : String) : String :=
   if line.startsWith "P " || line.startsWith "Q " then
     let force := line.startsWith "Q "
@@ -151,6 +195,7 @@ def handle (line : String) : String :=
       | some es, some as => s!"acc={if ovCanAssign liveTyRel es as then 1 else 0}"
       | _, _ => "bad-op"
     | _ => "bad-op"
+  else if line.startsWith "G " then handleG (line.drop 2).toString
   else if line.startsWith "H " then handleH (line.drop 2).toString
   else "bad-op"
 
